@@ -292,6 +292,9 @@ def run(ctx: Ctx) -> None:
                     "call-extent", what="call-site context stops before the end of a multi-line call")
     rep.floor("C01.R3", n3, 1)
 
+    rep.rule("C01.R23", "the lines hashed as the context of a node reach at least the node's own line (the slice bound is the node's line number plus a non-negative constant)")
+    n23 = context_covers_own_line(ctx, "C01.R23")
+    rep.floor("C01.R23", n23, 2)
     # ---- R4 -------------------------------------------------------------------------------
     tracked_type_table(ctx)
 
@@ -777,3 +780,47 @@ def tracked_type_table(ctx: Ctx, rule: str = "C01.R4") -> None:
         rep.unknown(rule, cls.qname, "option sensitivity of the type classifier not evaluated", cls.loc(), und2)
     else:
         rep.ok(rule, cls.qname, desc2, cls.loc())
+
+
+def context_covers_own_line(ctx: Ctx, rule: str) -> int:
+    """Every slice of the body lines that IntroVisitor hashes as the context of a node (a call, a reference by name) reaches at least the node's own line: the upper bound
+    is `<node>.lineno` / `<node>.end_lineno` plus a constant that is not negative (`lines[: lineno]` ends with the line numbered `lineno`)."""
+    rep = ctx.report
+    prog = ctx.prog
+    iv = prog.cls("dds.introspect.IntroVisitor")
+    if iv is None:
+        raise AnchorError("dds.introspect.IntroVisitor not found")
+    n = 0
+    for m_ in iv.methods.values():
+        fl = flow_of(prog, m_)
+        for c in m_.own_nodes():
+            if not (isinstance(c, ast.Call) and (prog.dotted(m_, c.func) or "").endswith("dds_hash") and c.args):
+                continue
+            a0 = c.args[0]
+            if not (isinstance(a0, ast.Subscript) and isinstance(a0.slice, ast.Slice) and a0.slice.upper is not None):
+                continue
+            up = a0.slice.upper
+            if isinstance(up, ast.Name):
+                ds = fl.defs_of_use(up)
+                if len(ds) == 1 and ds[0].value is not None:
+                    up = ds[0].value
+            # <expr mentioning lineno> (+|-) <constant>
+            off: Optional[int] = None
+            base = up
+            if isinstance(up, ast.BinOp) and isinstance(up.op, (ast.Add, ast.Sub)) and isinstance(up.right, ast.Constant) and isinstance(up.right.value, int):
+                off = up.right.value if isinstance(up.op, ast.Add) else -up.right.value
+                base = up.left
+            elif any(isinstance(y, ast.Attribute) and y.attr in ("lineno", "end_lineno") for y in ast.walk(up)):
+                off = 0
+            if off is None or not any(isinstance(y, ast.Attribute) and y.attr in ("lineno", "end_lineno") for y in ast.walk(base)) and not isinstance(base, ast.Name):
+                continue
+            n += 1
+            desc = f"{m_.name}: the context `{unparse(a0, 50)}` includes the line of the node it describes"
+            if off >= 0:
+                rep.ok(rule, m_.qname, desc, m_.loc(c))
+            else:
+                rep.bad(rule, m_.qname, desc, m_.loc(c), [f"{m_.loc(c)}: the slice stops {-off} line(s) before the node's own line",
+                        "`return apply(step, 3)` where `step` keeps a value computed from its run-time argument: editing the literal 3 -> 4 on that line re-runs the enclosing function, but the "
+                        "key of the keep inside `step` is unchanged: dds returns 300 where plain execution returns 400"], stmt_key(c),
+                        what="the call-site context of a reference stops before the line of the reference")
+    return n
